@@ -107,8 +107,11 @@ def run_property(prop, tier, seed, update_lock=False):
     inner = max(1, nproc // outer)
     tasks = [(q, prop, timeout_ms, seed, tier == "thorough", inner) for q in funcs]
     results = []
-    for res in par.fork_map(worker, tasks, outer):
-        if res[0] != "ok":
+    gen_deadline = int(os.environ.get("PYVC_FUNC_DEADLINE", "420" if tier == "quick" else "1800"))
+    for task, res in zip(tasks, par.fork_map(worker, tasks, outer, deadline_s=gen_deadline)):
+        if res[0] != "ok" and res[1].startswith("TIMEOUT"):
+            results.append({"q": task[0], "status": "undecided", "reason": res[1], "obligs": []})
+        elif res[0] != "ok":
             results.append({"q": "?", "status": "crash", "reason": res[1], "obligs": []})
         else:
             results.append(res[1])
